@@ -154,6 +154,54 @@ def run(chk):
         chk.count("steps_compared_with_fresh", compared)
         for v in viols:
             chk.violation("impl", classify(case, v), f"after step {v['step']} {v['op']}: {v['what']}", {"case": jc, **{k: v[k] for k in ("step", "op", "what")}})
+    # ---- optimizers alone: refitting one object must equal a fresh object with the final settings (GQR: its attributes
+    #      after the last keyword merge)
+    from pysensors.optimizers import CCQR, GQR, QR
+    for _ in range(300 if thorough else 70):
+        kind = ["QR", "CCQR", "CCQR0", "GQR"][int(rng.integers(0, 4))]
+        nfits = int(rng.integers(2, 5))
+        same_width = rng.random() < 0.5
+        n0 = int(rng.integers(3, 9))
+        mats = []
+        for _i in range(nfits):
+            n_ = n0 if (same_width or kind == "CCQR") else int(rng.integers(3, 9))
+            m_ = int(rng.integers(1, n_ + 1))
+            mats.append(rng.integers(-24, 25, size=(n_, m_)) / 8.0)
+        costs = (rng.integers(-8, 9, size=n0) / 4.0) if kind == "CCQR" else None
+        mk = {"QR": lambda: QR(), "CCQR": lambda: CCQR(sensor_costs=costs.copy()), "CCQR0": lambda: CCQR(), "GQR": lambda: GQR()}[kind]
+        obj = mk()
+        merged = {}
+        hist = []
+        for Bm in mats:
+            kws = {}
+            if kind == "GQR" and rng.random() < 0.7:
+                n_ = Bm.shape[0]
+                k_ = min(Bm.shape)
+                Nn = int(rng.integers(1, k_ + 1))
+                Ll = sorted(rng.choice(n_, size=int(rng.integers(0, max(1, n_ - Nn) + 1)), replace=False).tolist())
+                kws = {"idx_constrained": np.array(Ll, dtype=int), "n_sensors": Nn, "n_const_sensors": int(rng.integers(0, min(len(Ll), Nn) + 1)),
+                       "all_sensors": QR().fit(Bm).get_sensors(), "constraint_option": ["max_n", "exact_n", "predetermined", ""][int(rng.integers(0, 4))]}
+            merged.update(kws)
+            hist.append({"shape": list(Bm.shape), "kws": {k: (v.tolist() if hasattr(v, "tolist") else v) for k, v in kws.items()}})
+            case = {"optimizer": kind, "history": hist[:], "matrices": [b.tolist() for b in mats[:len(hist)]]}
+            try:
+                got = [int(i) for i in impl.quiet(obj.fit, Bm.copy(), **kws).get_sensors()]
+                err = None
+            except Exception as e:
+                got, err = None, e
+            try:
+                ref = [int(i) for i in impl.quiet(mk().fit, Bm.copy(), **merged).get_sensors()]
+                rerr = None
+            except Exception as e:
+                ref, rerr = None, e
+            chk.case(case, nontrivial=len(hist) >= 2)
+            chk.count("optimizer_refits:" + kind)
+            if (err is None) != (rerr is None) or got != ref:
+                chk.violation("impl", "optimizer-refit-differs:" + kind, f"{kind} fitted {len(hist)} times gives {got if err is None else type(err).__name__}; a fresh {kind} "
+                              f"with the final settings gives {ref if rerr is None else type(rerr).__name__}", case)
+                break
+            if err is not None:
+                break
     # ---- stage M: the Coq machine on the same histories
     codes, log = M.eval_cases("C15", cases)
     if codes is None:
